@@ -80,7 +80,9 @@ CHECKS = {
     "C08": {
         "engine": "solvex", "level": "fault_enumeration",
         "text": "for 12 configurations x 2 functions every evaluation index of the reference run x 7 fault kinds is executed "
-                "(plus all-calls-faulty runs; thorough: all fault pairs on three configurations); outcome compared with the "
+                "(plus all-calls-faulty runs; a fault at the LAST evaluation the budget allows for every budget 1..48 in 9 modes, "
+                "incl. a non-memoised hard-restart mode in which the re-evaluation of the incumbent can be the faulty one; "
+                "thorough: all fault pairs on three configurations); outcome compared with the "
                 "recorded calls before/after the fault, with the exact bounds and budget monitors left on",
         "note": "fault kinds: NaN, +/-inf, 1e200 (whole vector or one component), raised exception; n=2; maxfun=40",
         "technique": "exhaustive single-fault (thorough: double-fault) injection at every evaluation index on the real code",
